@@ -62,7 +62,8 @@ def scn_optional_table(c, table, si, edges=True):
     """face_edge / edge_face / face_face: rows of kept faces / edges, entries renumbered, entries naming a dropped element become missing"""
     from pyvc.lib.stdlib import OpaqueValue, PathModel
     it = new_interp(use=[])
-    ds = inputs.ugrid_mesh(c, fill='int_fill', start_index=si, edges='both' if edges else 'none', tables=(table,))
+    # the face-node table of this dataset uses the OTHER index base than the table under test: each table has its own
+    ds = inputs.ugrid_mesh(c, fill='int_fill', start_index=1 - si, edges='both' if edges else 'none', tables=(table,))
     info = ds.info
     rowkind, colkind = table.split('_')
     rowdim, width = ('nface', info['maxn']) if rowkind == 'face' else ('nedge', 2)
